@@ -763,6 +763,13 @@ const vcSimple = `{"@context":["https://www.w3.org/2018/credentials/v1","https:/
 "issuanceDate":"2010-01-01T19:23:24Z","expirationDate":"2030-01-01T19:23:24Z",
 "credentialSubject":{"id":"did:example:ebfeb1f712ebc6f1c276e12ec21","degree":{"type":"BachelorDegree","name":"Bachelor of Science"}}}`
 
+// a credential with the base context and the base type only (what WithBaseContextValidation accepts)
+const vcBase = `{"@context":["https://www.w3.org/2018/credentials/v1"],
+"id":"http://example.edu/credentials/1872","type":["VerifiableCredential"],
+"issuer":{"id":"did:example:76e12ec712ebc6f1c221ebfeb1f"},
+"issuanceDate":"2010-01-01T19:23:24Z","expirationDate":"2030-01-01T19:23:24Z",
+"credentialSubject":{"id":"did:example:ebfeb1f712ebc6f1c276e12ec21"}}`
+
 const didDocJSON = `{"@context":["https://www.w3.org/ns/did/v1","https://w3id.org/security/suites/ed25519-2018/v1"],
 "id":"did:example:21tDAKCERh95uGgKbJNHYp","alsoKnownAs":["did:example:aka"],
 "verificationMethod":[{"id":"did:example:21tDAKCERh95uGgKbJNHYp#key-1","type":"Ed25519VerificationKey2018","controller":"did:example:21tDAKCERh95uGgKbJNHYp","publicKeyBase58":"H3C2AVvLMv6gmMNam3uVAjZpfkcJCwDwnZn6z3wXmqPV"},
@@ -846,6 +853,37 @@ func (s *syncWorld) docSeeds() {
 		Targets: []Target{{"verifiable.ParseCredential", parseVC}, {"verifiable.ParseCredential(strict)", parseVCStrict}}})
 	s.add(&Seed{Name: "vc.rich", Layer: "X", Kind: "json", Wire: []byte(vcJSON),
 		Targets: []Target{{"verifiable.ParseCredential(no proof check)", parseVCNoProof}}})
+
+	// the verifier application's validation modes are a dimension of their own: every credential seed is also
+	// parsed under each of them (the JSON seeds feed the E10 model: decodeType / decodeContext / validateBaseContext)
+	modes := []struct {
+		name string
+		opts []verifiable.CredentialOpt
+	}{
+		{"base context", []verifiable.CredentialOpt{verifiable.WithBaseContextValidation()}},
+		{"base context extended", []verifiable.CredentialOpt{verifiable.WithBaseContextExtendedValidation(
+			[]string{"https://www.w3.org/2018/credentials/v1", "https://www.w3.org/2018/credentials/examples/v1"},
+			[]string{"VerifiableCredential", "UniversityDegreeCredential"})}},
+		{"json-ld validation", []verifiable.CredentialOpt{verifiable.WithJSONLDValidation(), verifiable.WithJSONLDOnlyValidRDF()}},
+		{"no schema check", []verifiable.CredentialOpt{verifiable.WithNoCustomSchemaCheck(), verifiable.WithStrictValidation()}},
+		{"validation off", []verifiable.CredentialOpt{verifiable.WithCredDisableValidation()}},
+	}
+
+	var modeTargets []Target
+
+	for _, m := range modes {
+		m := m
+		modeTargets = append(modeTargets, Target{"verifiable.ParseCredential(" + m.name + ")", func(in []byte) error {
+			_, e := verifiable.ParseCredential(in, append([]verifiable.CredentialOpt{
+				verifiable.WithJSONLDDocumentLoader(loader), verifiable.WithDisabledProofCheck()}, m.opts...)...)
+			return e
+		}})
+	}
+
+	must(modeTargets[0].Run([]byte(vcBase)))
+	s.add(&Seed{Name: "vc.base", Layer: "E10", Kind: "json", Wire: []byte(vcBase),
+		Targets: append([]Target{{"verifiable.ParseCredential(no proof check)", parseVCNoProof}}, modeTargets...)})
+	s.add(&Seed{Name: "vc.simple", Layer: "E10", Kind: "json", Wire: []byte(vcSimple), Targets: modeTargets[1:3]})
 
 	// JWT credential
 	jwtClaims, err := vc.JWTClaims(false)
